@@ -54,14 +54,38 @@ def sliceFrom? {α} (xs : List α) (i : Int) : Res (List α) := slice? xs i xs.l
 /-- `xs[:j]` = `xs[0:j]` -/
 def sliceTo? {α} (xs : List α) (j : Int) : Res (List α) := slice? xs 0 j
 
-/-- largest length `make` accepts in the mirror (the Go runtime's limit is `maxAlloc / elemsize`,
-    2^48 / 16 for `[]any` on 64-bit platforms; we use the stricter 2^47 / 16 … any bound ≥ the lengths that can
-    exist works, see `make?_ok`) -/
-def makeLimit : Int := 2 ^ 47
+/-- `maxAlloc` of the Go runtime on 64-bit platforms (linux/amd64, arm64: `heapAddrBits = 48`): the largest
+    allocation `mallocgc` accepts, in bytes -/
+def maxAlloc : Int := 2 ^ 48
 
-/-- `make([]any, n)`: panics when `n < 0` or `n` is absurdly large; else `n` nils -/
+/-- largest length `make([]T, n)` accepts for an element type of `elemSize` bytes: `runtime.makeslice` panics
+    (`makeslice: len out of range`) when `n < 0` or `elemSize * n > maxAlloc`, i.e. when `n > maxAlloc / elemSize` -/
+def makeLimitOf (elemSize : Nat) : Int := maxAlloc / (elemSize : Int)
+
+/-- largest length `make([]any, n)` accepts: an `any` (interface value) takes 16 bytes, the limit is
+    `maxAlloc / 16 = 2^44` elements (`makeLimit_eq`) -/
+def makeLimit : Int := 2 ^ 44
+
+/-- the `[]any` limit is the element-size-indexed limit for 16-byte elements (`any`, `string`, `decimal128.Decimal`) -/
+theorem makeLimit_eq : makeLimit = makeLimitOf 16 := by decide
+
+/-- the limit for 24-byte elements (`[]any` slice headers, the elements of a `[][]any`): `2^48 / 24` -/
+theorem makeLimitOf_24 : makeLimitOf 24 = 11728124029610 := by decide
+
+/-- `make([]any, n)`: panics when `n < 0` or `n > maxAlloc / 16` (as `runtime.makeslice` does); else `n` nils -/
 def make? (n : Int) : Res (List Val) :=
   if 0 ≤ n ∧ n ≤ makeLimit then .ok (List.replicate n.toNat .null) else .panic makeMsg
+
+/-- `make([]T, n)` for an element type `T` of `elemSize` bytes with zero value `z` (`[][]any`: 24, `[]string`: 16,
+    `[]decimal128.Decimal`: 16): panics when `n < 0` or `n > maxAlloc / elemSize`; else `n` copies of `z` -/
+def makeOf? {α} (elemSize : Nat) (z : α) (n : Int) : Res (List α) :=
+  if 0 ≤ n ∧ n ≤ makeLimitOf elemSize then .ok (List.replicate n.toNat z) else .panic makeMsg
+
+/-- `panic: strings.Builder.Grow: negative count` -/
+def growMsg : String := "strings.Builder.Grow: negative count"
+
+/-- `b.Grow(n)` on a `strings.Builder`: panics iff `n < 0` -/
+def grow? (n : Int) : Res Unit := if n < 0 then .panic growMsg else .ok ()
 
 /-- `v.([]any)` single-value form: panics on mismatch -/
 def assertArr? (v : Val) : Res (ATag × List Val) :=
@@ -165,6 +189,35 @@ theorem slice?_ok_nat {α} (xs : List α) (a b : Nat) (h1 : a ≤ b) (h2 : b ≤
 theorem make?_ok (n : Int) (h0 : 0 ≤ n) (h1 : n ≤ makeLimit) : make? n = .ok (List.replicate n.toNat .null) := by
   unfold make?; rw [if_pos ⟨h0, h1⟩]
 
+/-- `make([]T, n)` succeeds for `0 ≤ n ≤ maxAlloc / elemSize` -/
+theorem makeOf?_ok {α} (elemSize : Nat) (z : α) (n : Int) (h0 : 0 ≤ n) (h1 : n ≤ makeLimitOf elemSize) :
+    makeOf? elemSize z n = .ok (List.replicate n.toNat z) := by
+  unfold makeOf?; rw [if_pos ⟨h0, h1⟩]
+
+/-- `make([]any, n)` panics exactly when `n` is negative or above `maxAlloc / 16 = 2^44` -/
+theorem make?_panic_iff (n : Int) : make? n = .panic makeMsg ↔ ¬ (0 ≤ n ∧ n ≤ 2 ^ 44) := by
+  unfold make? makeLimit
+  constructor
+  · intro h hb; rw [if_pos hb] at h; cases h
+  · intro h; rw [if_neg h]
+
+/-- `Grow(n)` panics iff `n < 0` -/
+theorem grow?_panic_iff (n : Int) : grow? n = .panic growMsg ↔ n < 0 := by
+  unfold grow?
+  constructor
+  · intro h; by_cases hn : n < 0
+    · exact hn
+    · rw [if_neg hn] at h; cases h
+  · intro h; rw [if_pos h]
+
+/-- `Grow` of a non-negative count succeeds -/
+theorem grow?_ok (n : Int) (h : 0 ≤ n) : grow? n = .ok () := by
+  unfold grow?; rw [if_neg (by omega)]
+
+/-- **`b.Grow(len(x))` cannot panic**: a length is never negative (functions.go:94 `b.Grow(len(s))`, parser.go:2201 and
+    :2308 `b.Grow(len(v))`) -/
+theorem grow?_len {α} (xs : List α) : grow? (xs.length : Int) = .ok () := grow?_ok _ (by omega)
+
 /-- division by a non-zero divisor is the model's truncated division -/
 theorem div?_ok (a b : Int) (h : b ≠ 0) : div? a b = .ok (Int.tdiv a b) := by unfold div?; rw [if_neg h]
 /-- remainder by a non-zero divisor is the model's truncated remainder -/
@@ -182,6 +235,15 @@ example : sliceFrom? [1, 2, 3] 4 = .panic sliceMsg := rfl
 example : sliceFrom? [1, 2, 3] 3 = .ok [] := rfl
 example : sliceTo? [1, 2, 3] (-1) = .panic sliceMsg := rfl
 example : (make? (-1)) = .panic makeMsg := rfl
+/-- the limit is Go's: `make([]any, 2^44)` is accepted (Go then asks the allocator for 2^48 bytes), `2^44 + 1` is
+    `panic: runtime error: makeslice: len out of range` -/
+example : make? (2 ^ 44 + 1) = .panic makeMsg := (make?_panic_iff _).mpr (by decide)
+example : make? (2 ^ 44) = .ok (List.replicate (2 ^ 44) .null) := make?_ok _ (by decide) (by decide)
+example : makeOf? 24 ([] : List Val) (makeLimitOf 24 + 1) = .panic makeMsg := by
+  unfold makeOf?; rw [if_neg (by decide)]
+example : makeOf? 24 ([] : List Val) 2 = .ok [[], []] := rfl
+example : grow? (-1) = .panic growMsg := rfl
+example : grow? (([0x61, 0x62] : Bytes).length : Int) = .ok () := grow?_len _
 example : assertArr? (.str []) = .panic assertMsg := rfl
 example : div? 1 0 = .panic divMsg := rfl
 
